@@ -193,7 +193,7 @@ Section UserAlpha.
   Hypothesis Hpp : all_pos pp.
   Hypothesis Hrange : hd 0 p <= p_i <= last p 0.
 
-  Definition ufactor := interp_lin NumR p (map (fun m => 1 / m) pp) p_i.
+  Definition ufactor := 1 / interp_lin NumR p pp p_i.
   Definition ums := map (fun m => m * ufactor) pp.
 
   Theorem fp_init_user :
@@ -204,8 +204,8 @@ Section UserAlpha.
                                   fp_density := t_density tb |}.
   Proof.
     unfold fp_init. rewrite Halpha. fold p pp.
-    rewrite interp1d_strict_inside by (auto; now rewrite map_length).
-    change (interp_lin NumR p (map (fun m => ndiv NumR (n1 NumR) m) pp) p_i) with ufactor.
+    rewrite interp1d_strict_inside by auto.
+    change (ndiv NumR (n1 NumR) (interp_lin NumR p pp p_i)) with ufactor.
     change (map (fun m => nmul NumR m ufactor) pp) with ums.
     rewrite interp1d_strict_inside by (auto; unfold ums; now rewrite map_length). reflexivity.
   Qed.
@@ -214,25 +214,34 @@ Section UserAlpha.
     interp_lin NumR p ums p_i = ufactor * interp_lin NumR p pp p_i.
   Proof. unfold ums. apply interp_lin_scal; [exact Hlpp|exact Hn]. Qed.
 
-  (* the reported m_i is >= 1, and at most the arithmetic/harmonic-mean bound of the two
-     neighbouring table values ("within linear-interpolation error above 1") *)
-  Theorem user_m_i_at_least_one : 1 <= interp_lin NumR p ums p_i.
+  (* the pseudopressure interpolated at p_i is positive (it lies between the smallest and the largest table value) *)
+  Lemma interp_pp_pos : 0 < interp_lin NumR p pp p_i.
   Proof.
-    rewrite user_m_i_product. unfold ufactor.
-    apply (interp_lin_same_segment (fun m => 1 / m) (fun u v => 1 <= v * u) p pp p_i); auto.
-    intros x0 x1 y0 y1 Hx Hq H0 H1. unfold Rdiv. rewrite !Rmult_1_l.
-    apply (seg_am_hm x0 x1 y0 y1 p_i Hx Hq (Hpp _ H0) (Hpp _ H1)).
+    assert (Hne : pp <> []). { intro E. rewrite E in Hlpp. simpl in Hlpp. lia. }
+    destruct pp as [|s0 st] eqn:Es; [contradiction|].
+    set (lo := lmin NumR s0 (s0 :: st)). set (hi := lmax NumR s0 (s0 :: st)).
+    assert (Hlo : 0 < lo).
+    { unfold lo. destruct (lmin_in (s0 :: st) s0) as [E|Hin]; [rewrite E|]; apply Hpp; [left; reflexivity|exact Hin]. }
+    assert (Hb : lo <= interp_lin NumR p (s0 :: st) p_i <= hi).
+    { apply interp_lin_range; auto.
+      apply ys_in_of_bounds. intros x Hx. split; [now apply lmin_le_elem|now apply lmax_ge_elem]. }
+    lra.
   Qed.
 
-  (* exactly 1 when p_i is a table node *)
+  (* the reported m_i is exactly 1, for every initial pressure inside the table *)
+  Theorem user_m_i_is_one : interp_lin NumR p ums p_i = 1.
+  Proof. rewrite user_m_i_product. unfold ufactor. pose proof interp_pp_pos. field. lra. Qed.
+
+  (* (the two clauses of the property text, now corollaries: at least 1 everywhere, exactly 1 at table nodes) *)
+  Theorem user_m_i_at_least_one : 1 <= interp_lin NumR p ums p_i.
+  Proof. rewrite user_m_i_is_one. lra. Qed.
   Theorem user_m_i_one_at_nodes j : (j < length p)%nat -> p_i = nth j p 0 ->
     interp_lin NumR p ums p_i = 1.
-  Proof.
-    intros Hj Hp. rewrite user_m_i_product. unfold ufactor. rewrite Hp.
-    rewrite !interp_lin_at_node by (auto; rewrite ?map_length; auto).
-    rewrite (nth_map_lt _ _ _ 0) by lia.
-    assert (0 < nth j pp 0) by (apply Hpp, nth_In; lia). field. lra.
-  Qed.
+  Proof. intros _ _. apply user_m_i_is_one. Qed.
+
+  (* and the scaled column is strictly increasing when the pseudopressure column is *)
+  Lemma ufactor_pos : 0 < ufactor.
+  Proof. unfold ufactor. apply Rdiv_lt_0_compat; [lra|apply interp_pp_pos]. Qed.
 End UserAlpha.
 
 (* ---------- rescale_pseudopressure: frac-face pressure -> 0, initial pressure -> 1 ---------- *)
